@@ -481,6 +481,11 @@ func (m *Model) apply(op Op, obs *Obs, post []Msg, replacedMeansPruned bool) str
 		why = m.checkLookup(op, obs)
 	case "stats":
 		why = m.checkStats(obs)
+	case "reopen":
+		// a restart on the same database: nothing changes (retention prunes aside); judged by the listing below
+		if obs.Err != OK {
+			why = "the store refused to open again: " + obs.ErrText
+		}
 	default:
 		return "qmodel: unknown op " + op.Kind
 	}
